@@ -31,7 +31,7 @@ def faults(rng, base_decls):
     # undefined names in every slot
     f += [("undefined", "positional", "G(%s) | 0\n" % u), ("undefined", "positional-expr", "G(2*%s+1) | 0\n" % u),
           ("undefined", "keyword", "G(a=%s) | 0\n" % u), ("undefined", "list-element", "G(a=[1, %s]) | 0\n" % u),
-          ("undefined", "mode", "G | %s\n" % u), ("undefined", "mode-list", "G | [0, %s]\n" % u),
+          ("undefined", "mode", "G | %s\n" % u), ("undefined", "mode-list", "G | [0, %s]\n" % u), ("undefined", "mode-list-first", "G | [%s, 1]\n" % u),
           ("undefined", "array-index", "G(A_[%s]) | 0\n" % u),
           ("undefined", "indexed-array-name", "G(%s[0]) | 0\n" % u),
           ("undefined", "loop-list", "for int m_ in [1, %s]\n    G | m_\n" % u),
@@ -49,6 +49,8 @@ def faults(rng, base_decls):
                     ("complex-literal", "1j"), ("string-variable", "s_"), ("float-integer-valued", "2.0")):
         f.append(("mode", what, "G | %s\n" % e))
         f.append(("mode", what + "-in-list", "G | [0, %s]\n" % e))
+        f.append(("mode", what + "-first-in-list", "G | [%s, 0]\n" % e))
+        f.append(("mode", what + "-middle-in-list", "G(1) | (2, %s, 0)\n" % e))
     # complex value for int / float variables
     for ty in ("int", "float"):
         for what, e in (("literal", "1+2j"), ("literal-pure", "2j"), ("computed", "2*1j"), ("computed-variable", "c_*2"),
@@ -121,7 +123,7 @@ def replay(ctx, data):
 def run(ctx):
     ctx.rule = ("otherwise valid random scripts with exactly one fault injected at a random statement position: "
                 "an undefined name in each of 12 syntactic slots, a reserved name (qN, name, version, target, type) "
-                "as scalar or array variable, a mode of float/complex/string value (literal, variable, computed), a "
+                "as scalar or array variable, a mode of float/complex/string value (literal, variable, computed; alone and at the first, middle and last position of a mode list), a "
                 "literal or computed complex value for an int/float scalar or array, a wrongly typed loop value, an "
                 "included program called with the wrong number of modes or wrong keyword arguments; oracle: loads "
                 "raises; for undefined and reserved names a BlackbirdSyntaxError naming the identifier with its line "
